@@ -608,6 +608,39 @@ def m_slice_last(it, st, fr, t, args, ga):
     return _opt_ref_num(it, st, _cont(it, st, args[0]), 'last')
 
 
+def m_slice_first(it, st, fr, t, args, ga):
+    """<[T]>::first: Some(&elem 0) exactly when the slice is non-empty"""
+    c = _cont(it, st, args[0])
+    if c.len is None:
+        raise I.InterpError('first() of a sequence of unknown length')
+
+    def some_(it2, s2, f2):
+        c2 = _cont(it2, s2, it2.operand(s2, f2, t['args'][0]))
+        return some(I.RefV(s2.new_cell(_elem_value(it2, s2, c2, ZERO))))
+    return ('fork', [(cmp_term('Gt', c.len, 0), some_), (cmp_term('Eq', c.len, 0), lambda it2, s2, f2: none())])
+
+
+def _m_slice_split(which):
+    """<[T]>::split_first / split_last: None for an empty slice, otherwise (the first / last element, the rest)"""
+    def m(it, st, fr, t, args, ga):
+        c = _cont(it, st, args[0])
+        if c.len is None:
+            raise I.InterpError('%s of a sequence of unknown length' % which)
+
+        def some_(it2, s2, f2):
+            c2 = _cont(it2, s2, it2.operand(s2, f2, t['args'][0]))
+            ex = {k_: v_ for k_, v_ in (c2.extra or {}).items() if k_ not in ('items',)}
+            if which == 'split_first':
+                e = _elem_value(it2, s2, c2, ZERO)
+                rest = I.ContV('slice', ('from', c2.term, Poly.const(1)), length=c2.len - 1, elem_ty=c2.elem_ty, extra=ex)
+            else:
+                e = _elem_value(it2, s2, c2, c2.len - 1)
+                rest = I.ContV('slice', ('take', c2.term, c2.len - 1), length=c2.len - 1, elem_ty=c2.elem_ty, extra=ex)
+            return some(I.TupleV([I.RefV(s2.new_cell(e)), I.RefV(s2.new_cell(rest))]))
+        return ('fork', [(cmp_term('Gt', c.len, 0), some_), (cmp_term('Eq', c.len, 0), lambda it2, s2, f2: none())])
+    return m
+
+
 def m_iter_max(it, st, fr, t, args, ga):
     return _opt_ref_num(it, st, _cont(it, st, args[0]), 'max')
 
@@ -2159,6 +2192,9 @@ def registry():
         'core::slice::<impl [T]>::is_empty': m_slice_is_empty,
         'core::slice::<impl [T]>::iter': m_slice_iter,
         'core::slice::<impl [T]>::last': m_slice_last,
+        'core::slice::<impl [T]>::first': m_slice_first,
+        'core::slice::<impl [T]>::split_first': _m_slice_split('split_first'),
+        'core::slice::<impl [T]>::split_last': _m_slice_split('split_last'),
         'core::iter::Iterator::max': m_iter_max,
         'core::iter::Iterator::reduce': m_iter_reduce,
         'core::slice::<impl [T]>::get': m_slice_get,
